@@ -1711,6 +1711,11 @@ class Choice(Type):
                 raise e
             length -= (offset - decoder.number_of_bits)
 
+            if length < 0:
+                raise DecodeError(
+                    'Extension addition {} is longer than its open type '
+                    'length.'.format(name))
+
         decoder.skip_bits(length)
 
         return (name, decoded)
